@@ -666,10 +666,11 @@ def r12_5(prog: Program, chk: Check) -> None:
 # A container of the checker (a list of members, a table) indexed by a literal payload of the
 # checked program: the subscript itself can raise (IndexError, KeyError, TypeError for an
 # unhashable key or non-integer slice bounds, ValueError for a zero slice step).
+# keyed by (module, function, the container expression): the key expression may be renamed freely
 R127_EXCEPTIONS: Dict[Tuple[str, str, str], str] = {
-    ("format_strings", "PercentFormatString.accept_mapping_args_no_mvv", "cs_map[pair.key.val]"): "cs_map is a defaultdict(list) and the enclosing test establishes that the key is a str: the lookup cannot raise",
-    ("implementation", "_typeddict_setitem", "self_value.items[key.val]"): "else-branch of `key.val not in self_value.items`: the key was just found in that dict (its hashability is reported earlier as unhashable_key)",
-    ("name_check_visitor", "NameCheckVisitor._composite_from_subscript_no_mvv", "type[index.val]"): "type[...] accepts any object (types.GenericAlias does not validate its argument)",
+    ("format_strings", "PercentFormatString.accept_mapping_args_no_mvv", "cs_map"): "cs_map is a defaultdict(list) and the key is established to be a str (or decoded from bytes) just before: the lookup cannot raise",
+    ("implementation", "_typeddict_setitem", "self_value.items"): "else-branch of `key.val not in self_value.items`: the key was just found in that dict (its hashability is reported earlier as unhashable_key)",
+    ("name_check_visitor", "NameCheckVisitor._composite_from_subscript_no_mvv", "type"): "type[...] accepts any object (types.GenericAlias does not validate its argument)",
 }
 
 
@@ -719,7 +720,7 @@ def r12_7(prog: Program, chk: Check) -> None:
                 continue
             text = norm(n)
             how = _guards_payload_subscript(n, fn)
-            exc = R127_EXCEPTIONS.get((m, q, text))
+            exc = R127_EXCEPTIONS.get((m, q, norm(n.value)))
             kinds = "slice" if any(f"isinstance({norm(n.slice)}, slice)" in norm(t.test) for t in ast.walk(fn) if isinstance(t, ast.If) and any(x is n for x in ast.walk(t))) else "index"
             key = f"{m}::{q}::payload-subscript::{text}::{kinds}"
             seen[key] = seen.get(key, 0) + 1
